@@ -198,7 +198,8 @@ async def execute(case):
             gctx = GlobalContextMgr.get(f"file.{o['ctx']}")
             ast_ctx = AstEval(f"file.{o['ctx']}", gctx)
             Function.install_ast_funcs(ast_ctx)
-            ast_ctx.parse(f"task.unique({o['name']!r}, kill_me={o['kill_me']})")
+            # the foreign task stays alive for a while as owner of the name, so that later claims meet it
+            ast_ctx.parse(f"task.unique({o['name']!r}, kill_me={o['kill_me']})\ntask.sleep(3)")
             try:
                 await ast_ctx.eval()
             except asyncio.CancelledError:
